@@ -374,17 +374,19 @@ std::string op_tuparr_more(std::string const &_op, line_t const &L)
     mark(y);
     g_log.clear();
     std::string res;
+    event_log log;
     if (_op == "tupmake2")
     {
       auto const r{with_cats2<T::copyable>(L, x, y, [](auto &&a, auto &&b) { return fcppt::tuple::make(FWD(a), FWD(b)); })};
+      log = g_log;
       res = tup_slots(r);
     }
     else
     {
       auto const r{with_cats2<T::copyable>(L, x, y, [](auto &&a, auto &&b) { return fcppt::array::make(FWD(a), FWD(b)); })};
+      log = g_log;
       res = arr_slots(r);
     }
-    event_log const log{g_log};
     slots_t sx, sy;
     sx.add(x);
     sy.add(y);
